@@ -33,7 +33,10 @@ def run(tier, wd):
             tries += 1
             raw = rnd.random() < 0.15
             # 15% of the classes: values with a byte that is not valid UTF-8 (written ~ here and inside TLC)
-            items = g.sample_items(p, s["ast"], rnd, vals=("c~f", "~", "v~")) if raw else g.sample_items(p, s["ast"], rnd)
+            dashy = not raw and rnd.random() < 0.15
+            # 15% of the classes: values that start with a dash (a negative number, a lone dash): attached and = spellings only
+            items = g.sample_items(p, s["ast"], rnd, vals=("c~f", "~", "v~")) if raw else \
+                (g.sample_items(p, s["ast"], rnd, vals=("-5", "-", "-x")) if dashy else g.sample_items(p, s["ast"], rnd))
             if rnd.random() < 0.5:
                 items = g.shuffle_runs(items, rnd)
             if rnd.random() < 0.25:
@@ -68,14 +71,32 @@ def run(tier, wd):
             lines = G.spellings(p, items, cap=cap, rnd=rnd)
             for env in (["-a"], ["-a", "-e"], []):
                 groups.append({"rel": "respell", "members": [{"si": len(specs) - 1, "env": env, "argv": l} for l in lines]})
-    triples = gc.run_groups(rep, wd, binpath, [p], specs, groups, "respell")
-    gc.finish_groups(rep, [p], specs, triples,
+    # short options named with a digit (legal; reachable through OPTIONS and the generated spec only, the spec grammar has no -4)
+    p3 = {"opts": [{"names": "4 ipv4", "flag": True}, {"names": "1 first", "flag": False}, {"names": "q", "flag": True}], "args": ["X"]}
+    keys3 = [g.opt_key(o["names"]) for o in p3["opts"]]
+    for e_ in (g.Seq(g.Optional(g.Grp(keys3, all_=True)), g.Arg("X")), g.Seq(g.Optional(g.Grp(keys3, all_=True)), g.Optional(g.Arg("X")))):
+        specs.append({"ast": e_, "str": g.render(p3, e_), "prog": 1})
+        seen3 = set()
+        for _ in range(per_spec * 3):
+            items = g.sample_items(p3, e_, rnd)
+            if rnd.random() < 0.5:
+                items = g.shuffle_runs(items, rnd)
+            key = tuple(items)
+            if key in seen3 or len(items) > 6 or not any(i[0] == "occ" for i in items):
+                continue
+            seen3.add(key)
+            lines = G.spellings(p3, items, cap=cap, rnd=rnd)
+            if len(lines) >= 2:
+                groups.append({"rel": "respell", "members": [{"si": len(specs) - 1, "env": [], "argv": l} for l in lines]})
+    progs = [p, p3]
+    triples = gc.run_groups(rep, wd, binpath, progs, specs, groups, "respell")
+    gc.finish_groups(rep, progs, specs, triples,
                      "a group = one --free spec x one item sequence (a random sentence of the spec or a one-item perturbation of one) "
                      "x all (capped: a sample of) command lines TLC confirms to have that item reading: every spelling of every "
                      "occurrence and every folding; non-trivial = at least two members and the reference accepts")
     rep.cov["item_sequences"] = nseq
     rep.cov["specs"] = len(specs)
-    rep.assumptions += ["values are non-empty and start neither with '-' nor '='", "standard program (see C01)",
+    rep.assumptions += ["values are non-empty and do not start with '='; a value that starts with '-' has the attached and the = spellings only", "standard program (see C01)",
                         "specs without a spec-level --: behind one, tokens are positionals and have no spellings"]
     return rep.finish()
 
